@@ -42,6 +42,9 @@ type ServerConn struct {
 	wmu   sync.Mutex
 	Proto int
 	Cli   *ClientConn
+	q     [][]byte
+	wake  chan struct{}
+	dead  bool
 }
 
 // Reply sends a response frame (logs nothing by itself).
@@ -50,15 +53,55 @@ func (sc *ServerConn) Reply(stream int, op byte, body []byte) error {
 	return sc.WriteRaw(f.Encode(sc.Proto))
 }
 
+// WriteRaw queues bytes for the connection's writer goroutine (the queue plays the role of the
+// kernel's socket buffer: the server's reader never blocks on a slow client).
 func (sc *ServerConn) WriteRaw(b []byte) error {
 	sc.wmu.Lock()
 	defer sc.wmu.Unlock()
-	_, err := sc.c.Write(b)
-	return err
+	if sc.dead {
+		return net.ErrClosed
+	}
+	sc.q = append(sc.q, b)
+	select {
+	case sc.wake <- struct{}{}:
+	default:
+	}
+	return nil
+}
+
+func (sc *ServerConn) writer() {
+	for range sc.wake {
+		for {
+			sc.wmu.Lock()
+			if sc.dead {
+				sc.wmu.Unlock()
+				return
+			}
+			if len(sc.q) == 0 {
+				sc.wmu.Unlock()
+				break
+			}
+			b := sc.q[0]
+			sc.q = sc.q[1:]
+			sc.wmu.Unlock()
+			if _, err := sc.c.Write(b); err != nil {
+				sc.wmu.Lock()
+				sc.dead = true
+				sc.q = nil
+				sc.wmu.Unlock()
+				return
+			}
+		}
+	}
 }
 
 // Close closes the server's end (connection reset from the driver's point of view).
-func (sc *ServerConn) Close() { sc.c.Close() }
+func (sc *ServerConn) Close() {
+	sc.wmu.Lock()
+	sc.dead = true
+	sc.wmu.Unlock()
+	sc.c.Close()
+}
 
 // Node is one scripted server.
 type Node struct {
@@ -114,7 +157,8 @@ func (cl *Cluster) DialHost(ctx context.Context, host *gocql.HostInfo) (*gocql.D
 		}
 	}
 	cc, sc := NewPair(n.IP, 9042)
-	s := &ServerConn{Node: n, ID: id, c: sc, Proto: n.Proto, Cli: cc}
+	s := &ServerConn{Node: n, ID: id, c: sc, Proto: n.Proto, Cli: cc, wake: make(chan struct{}, 1)}
+	go s.writer()
 	n.mu.Lock()
 	n.Conns = append(n.Conns, s)
 	n.CConns = append(n.CConns, cc)
@@ -145,7 +189,13 @@ func (n *Node) ServerConns() []*ServerConn {
 }
 
 func (n *Node) serve(sc *ServerConn) {
-	defer sc.c.Close()
+	defer func() {
+		sc.Close()
+		select {
+		case sc.wake <- struct{}{}:
+		default:
+		}
+	}()
 	for {
 		f, err := ReadFrame(sc.c, n.Proto)
 		if err != nil {
